@@ -586,8 +586,8 @@ Mirrors what the real code rejects or what lies outside the modelled fragment:
 * every loop has a tile shape ≥ 1 dividing the current shape of its rank variable (perfect factorisation),
   and at the Compute every rank variable has shape 1 (`_assert_valid_pmapping`);
 * every holder node refers to an existing component of the matching kind (Storage ↔ Memory, Toll ↔ Toll), holds a
-  non-empty duplicate-free list of existing tensors; no (component, tensor) pair occurs twice
-  (`assert buffet not in child_result.buffet_stats`);
+  non-empty duplicate-free list of existing tensors and has `_lower = True` (the default; what `evaluate_mapping` builds
+  from YAML); no (component, tensor) pair occurs twice (`assert buffet not in child_result.buffet_stats`);
 * every tensor is held somewhere, and its first (backing) holder is a Memory;
 * every tensor's rank variables exist and are pairwise different (one rank variable per rank);
 * bounds ≥ 1. -/
@@ -611,10 +611,10 @@ def nodupB {β} [DecidableEq β] : List β → Bool
   | x :: r => !r.contains x && nodupB r
 
 def wfNode (arch : Arch Rat) (ntens : Nat) : Node Nat → Bool
-  | .storage l ts _ =>
-    (match arch.levels[l]? with | some lv => !lv.isToll | none => false) && !ts.isEmpty && ts.all (· < ntens) && nodupB ts
-  | .toll l ts _ =>
-    (match arch.levels[l]? with | some lv => lv.isToll | none => false) && !ts.isEmpty && ts.all (· < ntens) && nodupB ts
+  | .storage l ts lo =>
+    (match arch.levels[l]? with | some lv => !lv.isToll | none => false) && !ts.isEmpty && ts.all (· < ntens) && nodupB ts && lo
+  | .toll l ts lo =>
+    (match arch.levels[l]? with | some lv => lv.isToll | none => false) && !ts.isEmpty && ts.all (· < ntens) && nodupB ts && lo
   | _ => true
 
 /-- Is the first holder of `t` a Storage (Memory) node? `false` if `t` is never held. -/
